@@ -2,22 +2,32 @@
 (***************************************************************************)
 (* The register / stack machine at the level of VALUES (VMAbs.tla keeps only     *)
 (* depths).  State:                                                              *)
-(*   pc, a, b, c, d          program counter and the four registers                 *)
-(*   vs                      value stack (operands saved across sub-expressions,     *)
-(*                           SELECT CASE subjects)                                  *)
-(*   rs                      register stack (frames <<a, b, c, d>> of FOR bodies)    *)
-(*   vp                      variable-path stack (names being addressed)             *)
-(*   vars                    scalar variables of the module, by name                 *)
-(* An instruction is a record [op, ...] decoded from the real instruction list:     *)
-(*   LoadIntoA [v], Cast / AllocateBuiltIn [q], VarPathName [n], Jump /             *)
-(*   JumpIfFalse [t], the operators, the register copies, the stack pushes / pops.   *)
-(* Values are those of Values.tla; Opaque stands for a value the trace did not      *)
-(* expose or that lies outside the exactly representable domain - it propagates      *)
-(* through every operation and is never compared.                                   *)
-(*                                                                                 *)
-(* Exec(i, st) is the effect of one instruction: a new state, or                     *)
-(*   [halt], [err, c] (a BASIC error raised by the instruction), [unmodelled]        *)
-(* (an opcode outside this model: calls, arrays, records, built-ins, files).         *)
+(*   pc, a, b, c, d   program counter and the four registers                       *)
+(*   vs               value stack (operands saved across sub-expressions, SELECT    *)
+(*                    CASE subjects, FOR bounds)                                   *)
+(*   rs               register stack (frames <<a, b, c, d>> of FOR bodies)           *)
+(*   vp               variable-path stack: [n, sh, deep] - root name, SHARED, and     *)
+(*                    whether an index / member was appended (then the value is       *)
+(*                    part of an array or record, which this model keeps opaque)      *)
+(*   ctx              the context stack of the interpreter: one entry per activation   *)
+(*                    and one per argument list being collected; an entry names a        *)
+(*                    memory block (blk) - an argument-collecting entry and an error      *)
+(*                    handler SHARE the block of the code they serve                      *)
+(*   blocks           memory blocks by id: ordered names, values, "unk" (the block may     *)
+(*                    hold names this model has not seen); block 0 is the module's          *)
+(*   statics          the block kept by each STATIC procedure                              *)
+(*   ret, gs, br      return addresses of calls, of GOSUBs, the queue of by-reference        *)
+(*                    values on their way back to the caller                               *)
+(*   fres             the function result on its way back                                   *)
+(* An instruction is a record [op, ...] decoded from the real instruction list.            *)
+(* Values are those of Values.tla; Opaque stands for a value the trace did not expose        *)
+(* or that lies outside the exactly representable domain (and for every array and            *)
+(* record) - it propagates through every operation and is never compared.                     *)
+(*                                                                                         *)
+(* Exec(i, st) is the effect of one instruction:                                             *)
+(*   a new state; [halt]; [err, c] (a BASIC error raised by the instruction);                 *)
+(*   [trust, st] (the new state up to its pc, which only the machine knows: RESUME, a           *)
+(*   return address lost in a resynchronisation); [unmodelled].                                 *)
 (***************************************************************************)
 EXTENDS Values, TLC
 
@@ -29,9 +39,10 @@ Known2(x, y) == ~IsOpaque(x) /\ ~IsOpaque(y)
 Lift(r) == IF IsErr(r) /\ r.c = 0 THEN Opaque ELSE r
 
 BinOp(op, x, y) == IF Known2(x, y) THEN Lift(Arith(op, x, y)) ELSE Opaque
-RelOp(op, x, y) == IF Known2(x, y) THEN Lift(Arith(op, x, y)) ELSE Opaque
 
 DefaultOfQ(q) == IF q = "$" THEN Val("$", <<>>) ELSE Val(q, 0)
+\* the default value of a variable of qualifier q ("?": a record, an array, or unknown)
+DefaultOfVar(q) == IF q = "?" THEN Opaque ELSE DefaultOfQ(q)
 
 OpSymbol(op) ==
   CASE op = "Plus" -> "+" [] op = "Minus" -> "-" [] op = "Multiply" -> "*" [] op = "Divide" -> "/"
@@ -44,17 +55,50 @@ Binary == {"Plus", "Minus", "Multiply", "Divide", "Modulo", "And", "Or",
 Silent == {"Label", "PrintSetPrinterType", "PrintSetFileHandle", "PrintSetFormatStringFromA", "PrintSemicolon",
            "PrintComma", "PrintValueFromA", "PrintEnd", "OnErrorGoTo", "OnErrorResumeNext", "OnErrorGoToZero"}
 
+Empty == [x \in {} |-> Opaque]
+Front(s) == SubSeq(s, 1, Len(s) - 1)
+Last(s) == s[Len(s)]
+
 Next1(st) == [st EXCEPT !.pc = @ + 1]
 SetA(st, v) == IF IsErr(v) THEN [err |-> TRUE, c |-> v.c] ELSE [Next1(st) EXCEPT !.a = v]
 
-VarOf(st, n) == IF n \in DOMAIN st.vars THEN st.vars[n] ELSE Opaque
-SetVar(st, n, v) == [st EXCEPT !.vars = IF n \in DOMAIN @ THEN [@ EXCEPT ![n] = v] ELSE @ @@ (n :> v)]
+\* ---- memory blocks
+NewBlock(names, vals, unk) == [names |-> names, vals |-> vals, unk |-> unk]
+UnknownBlock == NewBlock(<<>>, Empty, TRUE)
+Cur(st) == Last(st.ctx).blk
+BlockOf(st, p) == IF p.sh THEN 0 ELSE Cur(st)
+Read(blk, n, q) == IF n \in DOMAIN blk.vals THEN blk.vals[n] ELSE IF blk.unk THEN Opaque ELSE DefaultOfVar(q)
+Write(blk, n, v) ==
+  IF n \in DOMAIN blk.vals THEN [blk EXCEPT !.vals[n] = v]
+  ELSE [blk EXCEPT !.vals = @ @@ (n :> v), !.names = Append(@, n)]
+\* a read creates the variable with its default value (get_or_create)
+Touch(blk, n, q) == IF n \in DOMAIN blk.vals THEN blk ELSE Write(blk, n, Read(blk, n, q))
+SetBlock(st, id, blk) == [st EXCEPT !.blocks = IF id \in DOMAIN @ THEN [@ EXCEPT ![id] = blk] ELSE @ @@ (id :> blk)]
+Havoc(blk) == [blk EXCEPT !.vals = [n \in DOMAIN @ |-> Opaque], !.unk = TRUE]
+
+\* ---- argument lists
+ArgName(args, k) == IF args[k].n = "" THEN "#" \o ToString(k) ELSE args[k].n
+BlockFromArgs(args) ==
+  NewBlock([k \in 1..Len(args) |-> ArgName(args, k)],
+           [n \in {ArgName(args, k) : k \in 1..Len(args)} |->
+              (LET k == CHOOSE j \in 1..Len(args) : ArgName(args, j) = n /\ \A i \in (j + 1)..Len(args) : ArgName(args, i) # n
+               IN args[k].v)],
+           \E k \in 1..Len(args) : args[k].unk)
+RECURSIVE ApplyArgs(_, _, _)
+ApplyArgs(blk, args, k) ==
+  IF k > Len(args) THEN blk
+  ELSE ApplyArgs([Write(blk, ArgName(args, k), args[k].v) EXCEPT !.unk = @ \/ args[k].unk], args, k + 1)
+PushArg(st, n, unk) ==
+  LET top == Last(st.ctx) IN
+  IF ~top.coll THEN [unmodelled |-> TRUE]
+  ELSE [Next1(st) EXCEPT !.ctx = Append(Front(@), [top EXCEPT !.args = Append(@, [n |-> n, v |-> st.a, unk |-> unk])])]
 
 Exec(i, st) ==
   CASE i.op \in Silent -> Next1(st)
     [] i.op = "Halt" -> [halt |-> TRUE]
     [] i.op = "LoadIntoA" -> SetA(st, i.v)
     [] i.op = "AllocateBuiltIn" -> SetA(st, DefaultOfQ(i.q))
+    [] i.op \in {"AllocateFixedLengthString", "AllocateUserDefined", "FixLength"} -> SetA(st, Opaque)
     [] i.op = "CopyAToB" -> [Next1(st) EXCEPT !.b = st.a]
     [] i.op = "CopyAToC" -> [Next1(st) EXCEPT !.c = st.a]
     [] i.op = "CopyAToD" -> [Next1(st) EXCEPT !.d = st.a]
@@ -67,31 +111,100 @@ Exec(i, st) ==
     [] i.op = "Cast" -> SetA(st, IF IsOpaque(st.a) THEN Opaque ELSE Lift(Cast(i.q, st.a)))
     [] i.op = "PushAToValueStack" -> [Next1(st) EXCEPT !.vs = Append(@, st.a)]
     [] i.op = "PopValueStackIntoA" ->
-         IF st.vs = <<>> THEN [unmodelled |-> TRUE]
-         ELSE [Next1(st) EXCEPT !.a = st.vs[Len(st.vs)], !.vs = SubSeq(@, 1, Len(@) - 1)]
+         IF st.vs = <<>> THEN [unmodelled |-> TRUE] ELSE [Next1(st) EXCEPT !.a = Last(st.vs), !.vs = Front(@)]
     \* a new frame starts with cleared registers
     [] i.op = "PushRegisters" -> [Next1(st) EXCEPT !.rs = Append(@, <<st.a, st.b, st.c, st.d>>),
                                                    !.a = Val("I", 0), !.b = Val("I", 0), !.c = Val("I", 0), !.d = Val("I", 0)]
     [] i.op = "PopRegisters" ->
          IF st.rs = <<>> THEN [unmodelled |-> TRUE]
-         ELSE LET f == st.rs[Len(st.rs)] IN
-              [Next1(st) EXCEPT !.a = f[1], !.b = f[2], !.c = f[3], !.d = f[4], !.rs = SubSeq(@, 1, Len(@) - 1)]
-    [] i.op = "VarPathName" -> [Next1(st) EXCEPT !.vp = Append(@, i.n)]
-    [] i.op = "PopVarPath" ->
-         IF st.vp = <<>> THEN [unmodelled |-> TRUE] ELSE [Next1(st) EXCEPT !.vp = SubSeq(@, 1, Len(@) - 1)]
+         ELSE LET f == Last(st.rs) IN
+              [Next1(st) EXCEPT !.a = f[1], !.b = f[2], !.c = f[3], !.d = f[4], !.rs = Front(@)]
+    \* ---- variables
+    [] i.op = "VarPathName" -> [Next1(st) EXCEPT !.vp = Append(@, [n |-> i.n, q |-> i.q, sh |-> i.sh, deep |-> FALSE])]
+    [] i.op \in {"VarPathIndex", "VarPathProperty"} ->
+         IF st.vp = <<>> THEN [unmodelled |-> TRUE] ELSE [Next1(st) EXCEPT !.vp = Append(Front(@), [Last(@) EXCEPT !.deep = TRUE])]
+    [] i.op = "PopVarPath" -> IF st.vp = <<>> THEN [unmodelled |-> TRUE] ELSE [Next1(st) EXCEPT !.vp = Front(@)]
     [] i.op = "CopyVarPathToA" ->
-         IF st.vp = <<>> THEN [unmodelled |-> TRUE] ELSE [Next1(st) EXCEPT !.a = VarOf(st, st.vp[Len(st.vp)])]
+         IF st.vp = <<>> THEN [unmodelled |-> TRUE]
+         ELSE LET p == Last(st.vp)
+                  id == BlockOf(st, p)
+              IN IF p.deep THEN [Next1(st) EXCEPT !.a = Opaque]
+                 ELSE [SetBlock(Next1(st), id, Touch(st.blocks[id], p.n, p.q)) EXCEPT !.a = Read(st.blocks[id], p.n, p.q)]
     [] i.op = "CopyAToVarPath" ->
          IF st.vp = <<>> THEN [unmodelled |-> TRUE]
-         ELSE [SetVar(Next1(st), st.vp[Len(st.vp)], st.a) EXCEPT !.vp = SubSeq(@, 1, Len(@) - 1)]
+         ELSE LET p == Last(st.vp)
+                  id == BlockOf(st, p)
+              IN [SetBlock(Next1(st), id, Write(st.blocks[id], p.n, IF p.deep THEN Opaque ELSE st.a)) EXCEPT !.vp = Front(@)]
+    [] i.op = "IsVariableDefined" ->
+         LET blk == st.blocks[Cur(st)] IN
+         [Next1(st) EXCEPT !.a = IF i.n \in DOMAIN blk.vals THEN Val("I", -1) ELSE IF blk.unk THEN Opaque ELSE Val("I", 0)]
+    \* ---- jumps
     [] i.op = "Jump" -> [st EXCEPT !.pc = i.t]
     [] i.op = "JumpIfFalse" ->
-         IF IsOpaque(st.a) THEN [opaquejump |-> TRUE]
+         IF IsOpaque(st.a) THEN [trust |-> st]
          ELSE IF ~HasTruth(st.a) THEN [unmodelled |-> TRUE]
          ELSE IF Truth(st.a) THEN Next1(st) ELSE [st EXCEPT !.pc = i.t]
+    [] i.op = "GoSub" -> [st EXCEPT !.gs = Append(@, st.pc), !.pc = i.t]
+    [] i.op = "Return" ->
+         IF st.gs = <<>> THEN [err |-> TRUE, c |-> 3]
+         ELSE IF i.t >= 0 THEN [st EXCEPT !.gs = Front(@), !.pc = i.t]
+         ELSE IF Last(st.gs) < 0 THEN [trust |-> [st EXCEPT !.gs = Front(@)]]
+         ELSE [st EXCEPT !.gs = Front(@), !.pc = Last(st.gs) + 1]
+    [] i.op = "PushRet" -> [Next1(st) EXCEPT !.ret = Append(@, i.t)]
+    [] i.op = "PopRet" ->
+         IF st.ret = <<>> THEN [unmodelled |-> TRUE]
+         ELSE IF Last(st.ret) < 0 THEN [trust |-> [st EXCEPT !.ret = Front(@)]]
+         ELSE [st EXCEPT !.ret = Front(@), !.pc = Last(st.ret)]
+    \* RESUME leaves the handler's context; where it continues is computed from the statement table
+    [] i.op \in {"Resume", "ResumeNext", "ResumeLabel"} ->
+         IF Len(st.ctx) < 2 THEN [unmodelled |-> TRUE] ELSE [trust |-> [st EXCEPT !.ctx = Front(@)]]
+    [] i.op = "Throw" -> [err |-> TRUE, c |-> 0]
+    \* ---- calls
+    [] i.op = "BeginCollectArguments" ->
+         [Next1(st) EXCEPT !.ctx = Append(@, [blk |-> Cur(st), coll |-> TRUE, args |-> <<>>])]
+    [] i.op = "PushNamed" -> PushArg(st, i.n, i.unk)
+    [] i.op = "PushUnnamedByVal" -> PushArg(st, "", FALSE)
+    [] i.op = "PushUnnamedByRef" ->
+         IF st.vp = <<>> THEN [unmodelled |-> TRUE] ELSE PushArg([st EXCEPT !.vp = Front(@)], "", FALSE)
+    [] i.op = "PushStack" ->
+         LET top == Last(st.ctx) IN
+         IF ~top.coll THEN [unmodelled |-> TRUE]
+         ELSE [SetBlock(Next1(st), st.nb, BlockFromArgs(top.args))
+                 EXCEPT !.ctx = Append(Front(@), [blk |-> st.nb, coll |-> FALSE, args |-> <<>>]), !.nb = @ + 1]
+    [] i.op = "PushStaticStack" ->
+         LET top == Last(st.ctx) IN
+         IF ~top.coll THEN [unmodelled |-> TRUE]
+         ELSE IF i.n \in DOMAIN st.statics THEN
+              LET id == st.statics[i.n] IN
+              [SetBlock(Next1(st), id, ApplyArgs(st.blocks[id], top.args, 1))
+                 EXCEPT !.ctx = Append(Front(@), [blk |-> id, coll |-> FALSE, args |-> <<>>])]
+         ELSE [SetBlock(Next1(st), st.nb, BlockFromArgs(top.args))
+                 EXCEPT !.ctx = Append(Front(@), [blk |-> st.nb, coll |-> FALSE, args |-> <<>>]), !.nb = @ + 1,
+                        !.statics = @ @@ (i.n :> st.nb)]
+    [] i.op = "PopStack" ->
+         IF Len(st.ctx) < 2 \/ Last(st.ctx).coll THEN [unmodelled |-> TRUE] ELSE [Next1(st) EXCEPT !.ctx = Front(@)]
+    \* array bounds were collected like arguments
+    [] i.op = "AllocateArrayIntoA" ->
+         IF Len(st.ctx) < 2 \/ ~Last(st.ctx).coll THEN [unmodelled |-> TRUE]
+         ELSE [Next1(st) EXCEPT !.ctx = Front(@), !.a = Opaque]
+    [] i.op = "EnqueueToReturnStack" ->
+         LET blk == st.blocks[Cur(st)] IN
+         [Next1(st) EXCEPT !.br = Append(@, IF i.t + 1 <= Len(blk.names) THEN Read(blk, blk.names[i.t + 1], "?") ELSE Opaque)]
+    [] i.op = "DequeueFromReturnStack" ->
+         IF st.br = <<>> THEN [unmodelled |-> TRUE] ELSE [Next1(st) EXCEPT !.a = Last(st.br), !.br = Front(@)]
+    [] i.op = "StashFunctionReturnValue" ->
+         LET id == Cur(st) IN [SetBlock(Next1(st), id, Touch(st.blocks[id], i.n, i.q)) EXCEPT !.fres = Read(st.blocks[id], i.n, i.q)]
+    [] i.op = "UnStashFunctionReturnValue" -> [Next1(st) EXCEPT !.a = st.fres]
+    \* a built-in works on the block of its arguments: what it leaves there (results, by-reference arguments) is not
+    \* modelled here (Strings.tla, Files.tla, Print.tla specify the built-ins themselves); POKE may touch anything
+    [] i.op \in {"BuiltInFunction", "BuiltInSub"} ->
+         IF i.n = "Poke" THEN [Next1(st) EXCEPT !.blocks = [id \in DOMAIN @ |-> Havoc(@[id])]]
+         ELSE SetBlock(Next1(st), Cur(st), Havoc(st.blocks[Cur(st)]))
     [] OTHER -> [unmodelled |-> TRUE]
 
 IsState(r) == "pc" \in DOMAIN r
 Start == [pc |-> 0, a |-> Val("I", 0), b |-> Val("I", 0), c |-> Val("I", 0), d |-> Val("I", 0),
-          vs |-> <<>>, rs |-> <<>>, vp |-> <<>>, vars |-> [x \in {} |-> Opaque]]
+          vs |-> <<>>, rs |-> <<>>, vp |-> <<>>, ret |-> <<>>, gs |-> <<>>, br |-> <<>>, fres |-> Opaque,
+          ctx |-> <<[blk |-> 0, coll |-> FALSE, args |-> <<>>]>>, blocks |-> (0 :> NewBlock(<<>>, Empty, FALSE)),
+          statics |-> [x \in {} |-> 0], nb |-> 1]
 =============================================================================
